@@ -1,15 +1,16 @@
-(* C16, send_valid on the legacy sub-domain, at the signature level: every signature placed in the transaction is
-   DER(r, s) || hashtype for an (r, s) that ecmath.verify accepts, under the public key of the signing key, for the
-   double-SHA256 of the CONSENSUS legacy pre-image of input 0 (Spec/Sighash.v) - by message_is_sighash
-   (legacy_message_partial), C01's sign_sound and the decomposition of utils.sig.  [curve_facts] is the explicit
-   hypothesis record of C01 (proved outright for the small curves). *)
+(* C16, send_valid at the signature level, FULL domain of the repaired send_tx: every signature made for selected input j
+   (any number of inputs, any output indices, any version / locktime, all six flags, all eight sender kinds) is
+   DER(r, s) || hashtype for an (r, s) that ecmath.verify accepts, under the public key of the signing key, for the CONSENSUS
+   signature hash of input j (BIP143 for the segwit kinds, the legacy algorithm of Spec/Sighash.v otherwise) - by
+   message_is_sighash (Proofs/SendSign.v), C01's sign_sound and the decomposition of utils.sig.
+   [curve_facts] is the explicit hypothesis record of C01 (proved outright for the small curves). *)
 From Coq Require Import ZArith List Lia Bool.
 From Coq Require Import Floats.SpecFloat.
 Require Import Bits.Lib.Result Bits.Lib.Bytes Bits.Lib.Group.
 Require Import Bits.Spec.Bip143 Bits.Spec.Sighash.
 Require Import Bits.Model.Ecmath Bits.Model.Keys Bits.Model.Der Bits.Model.SendValue Bits.Model.Send.
 Require Import Bits.Proofs.Ecmath Bits.Proofs.Ecdsa Bits.Proofs.Keys Bits.Proofs.SendSign.
-Require Bits.Proofs.Der Bits.Model.Tx.
+Require Bits.Proofs.Der Bits.Model.Tx Bits.Proofs.Send.
 Import ListNotations.
 Local Open Scope Z_scope.
 
@@ -19,26 +20,32 @@ Lemma Forall2_imp {A B} (P Q : A -> B -> Prop) l l' :
   (forall x y, P x y -> Q x y) -> Forall2 P l l' -> Forall2 Q l l'.
 Proof. intros H. induction 1; constructor; auto. Qed.
 
+Lemma Forall2_nth {A B} (P : A -> B -> Prop) l l' :
+  Forall2 P l l' -> forall k x, nth_error l k = Some x -> exists y, nth_error l' k = Some y /\ P x y.
+Proof.
+  induction 1 as [|x0 y0 l l' H0 _ IH]; intros k x Hk; destruct k; try discriminate.
+  - injection Hk as <-. exists y0. split; [reflexivity|exact H0].
+  - cbn [nth_error] in *. apply IH. exact Hk.
+Qed.
+
 Section Valid.
   Variables p a b n : Z.
   Variable G : point.
   Variable sha256 ripemd160 : bytes -> bytes.
   Variable scriptpubkey : bytes -> result bytes.
+  Variable is_address : bytes -> bool.
   Hypothesis facts : curve_facts p a b n G.
 
-  (* what one signature of sign_keys is *)
-  Definition good_sig (msg : bytes) (f : Z) (pre : bool) (key sg : bytes) : Prop :=
+  (* what one signature is: [digest] = the 32 bytes that were signed *)
+  Definition valid_sig (digest : bytes) (f : Z) (key sg : bytes) : Prop :=
     exists d r s der,
-      privkey_int n key = Ok d /\ 1 <= d < n /\
-      der_encode_sig r s = Ok der /\ sg = der ++ [z2b f] /\
-      (1 <= r < n /\ 1 <= s <= n / 2) /\
-      verify p a b n G r s (smul p a d G)
-             (of_be (Bits.Model.Der.hash256 sha256 (if pre then msg else msg ++ to_le 4 f))) = Ok true.
+      privkey_int n key = Ok d /\ der_encode_sig r s = Ok der /\ sg = der ++ [z2b f] /\
+      verify p a b n G r s (smul p a d G) (of_be digest) = Ok true.
 
   Lemma sign_keys_sound : forall keys draws msg f pre sigs rest,
     0 <= f < 256 ->
     sign_keys p a n G sha256 draws keys msg (Some f) pre = Ok (sigs, rest) ->
-    Forall2 (good_sig msg f pre) keys sigs.
+    Forall2 (valid_sig (Bits.Model.Der.hash256 sha256 (if pre then msg else msg ++ to_le 4 f)) f) keys sigs.
   Proof.
     induction keys as [|k keys IH]; intros draws msg f pre sigs rest Hf H.
     - cbn [sign_keys] in H. injection H as <- _. constructor.
@@ -48,90 +55,124 @@ Section Valid.
       apply Bits.Proofs.Der.sig_flag_suffix_der in Hsig as (m & d & r & s & der & Hd & Hsign & -> & Hder & ->); [|exact Hf].
       pose proof Hd as Hd'. apply privkey_int_iff in Hd' as (_ & Rd & Ed).
       assert (Rd' : 1 <= d < n) by lia.
-      destruct (sign_sound p a b n G facts draws d _ r s d1 Rd' Hsign) as (Rs & Hv & _).
-      exists d, r, s, der. repeat split; auto; lia.
-  Qed.
-
-  (* send_valid, legacy kinds, partial: one selected input, hash type with an unmodified pre-image *)
-  Theorem legacy_signatures_valid_partial sender recipient change k frac fee version locktime total unspents u x txi tx_ ht
-          draws sigs rest :
-    build_unsigned p a n G sha256 ripemd160 scriptpubkey sender recipient change (Some k) frac fee total unspents = Ok u ->
-    us_selected u = [(x, txi)] ->
-    is_kind (ki_type k) [k_p2pk; k_p2pkh; k_multisig; k_p2sh] = true ->
-    MT.tx_raw (map snd (us_selected u)) (us_txouts u) version locktime [] = Ok tx_ ->
-    ht = 1 \/ ht = 0x81 \/ ((ht = 3 \/ ht = 0x83) /\ length (us_txouts u) = 1%nat) ->
-    sign_keys p a n G sha256 draws (ki_keys k) tx_ (Some ht) false = Ok (sigs, rest) ->      (* what send_tx does *)
-    exists sc t pre,
-      sc = (if is_kind (ki_type k) [k_p2pk; k_p2pkh; k_multisig] then u_spk x else ki_redeem k) /\
-      ser_legacy t = tx_ /\ tx_version t = version /\ tx_locktime t = locktime /\
-      legacy_preimage t 0 sc ht = Some pre /\
-      legacy_sighash sha256 t 0 sc ht = Some (h256 sha256 pre) /\
-      (* every signature: strict layout DER || ht, and ECDSA-valid for the consensus sighash under its key *)
-      Forall2 (fun key sg => exists d r s der,
-                 privkey_int n key = Ok d /\ der_encode_sig r s = Ok der /\ sg = der ++ [z2b ht] /\
-                 verify p a b n G r s (smul p a d G) (of_be (h256 sha256 pre)) = Ok true)
-              (ki_keys k) sigs.
-  Proof.
-    intros Hb Hsel Hkind Hraw Hht Hsign.
-    destruct (legacy_message_partial p a n G sha256 ripemd160 scriptpubkey _ _ _ _ _ _ _ _ _ _ _ _ _ _ ht Hb Hsel Hkind Hraw Hht)
-      as (sc & t & Esc & Eins & Ev & El & Eser & Epre).
-    exists sc, t, (tx_ ++ to_le 4 ht). repeat split; auto.
-    - unfold legacy_sighash. rewrite Eins. cbn [nth_error].
-      assert (Hns : (is_single ht && (length (tx_outs t) <=? 0)%nat) = false).
-      { unfold legacy_preimage in Epre. rewrite Eins in Epre. cbn [nth_error] in Epre.
-        destruct (is_single ht && (length (tx_outs t) <=? 0)%nat); [discriminate|reflexivity]. }
-      rewrite Hns, Epre. reflexivity.
-    - assert (Hf : 0 <= ht < 256) by (destruct Hht as [->|[->|[[->| ->] _]]]; lia).
-      pose proof (sign_keys_sound _ _ _ _ _ _ _ Hf Hsign) as HS.
-      eapply Forall2_imp; [|exact HS]. intros key sg (d & r & s & der & Hd & _ & Hder & Hsg & _ & Hv).
+      destruct (sign_sound p a b n G facts draws d _ r s d1 Rd' Hsign) as (_ & Hv & _).
       exists d, r, s, der. repeat split; auto.
   Qed.
-  (* ---- segwit kinds: the same for sign_msgs (preimage mode) ---- *)
-  Lemma sign_msgs_sound : forall msgs keys draws f sigss,
+
+  Lemma sign_msgs_sound : forall msgs keys draws f pre sigss,
     0 <= f < 256 ->
-    sign_msgs p a n G sha256 draws keys msgs (Some f) = Ok sigss ->
-    Forall2 (fun m sgs => Forall2 (good_sig m f true) keys sgs) msgs sigss.
+    sign_msgs p a n G sha256 draws keys msgs (Some f) pre = Ok sigss ->
+    Forall2 (fun m sgs => Forall2 (valid_sig (Bits.Model.Der.hash256 sha256 (if pre then m else m ++ to_le 4 f)) f) keys sgs)
+            msgs sigss.
   Proof.
-    induction msgs as [|m msgs IH]; intros keys draws f sigss Hf H.
+    induction msgs as [|m msgs IH]; intros keys draws f pre sigss Hf H.
     - cbn [sign_msgs] in H. injection H as <-. constructor.
     - cbn [sign_msgs] in H. apply bind_ok in H as ([sgs d1] & Hk & H). cbn beta iota in H.
       apply bind_ok in H as (rest & Hrest & H). injection H as <-.
       constructor; [eapply sign_keys_sound; eauto | eapply IH; eauto].
   Qed.
 
-  (* send_valid, segwit kinds, partial (signature level): on the sub-domain of segwit_messages_partial every signature
-     made for input j is DER || flag and ECDSA-valid for the BIP143 sighash of input j under its key *)
-  Theorem segwit_signatures_valid_partial (sats : utxo -> Z) (t : tx) script f (unspents : list utxo) keys draws msgs sigss :
-    wf_tx t -> tx_version t = 1 -> tx_locktime t = 0 -> standard_flag f ->
+  Lemma standard_flag_byte f : standard_flag f -> 0 <= f < 256.
+  Proof. unfold standard_flag, standard_flags. cbn [In]. lia. Qed.
+
+  (* ---- segwit kinds ---- *)
+  Theorem segwit_signatures_valid (sats : utxo -> Z) (t : tx) script f (selected : list utxo) keys draws msgs sigss :
+    wf_tx t -> standard_flag f ->
     Z.of_nat (length script) < 2 ^ 64 ->
-    length unspents = length (tx_ins t) ->
-    (forall j x, nth_error unspents j = Some x ->
-                 u_vout x = Z.of_nat j /\ sat_of_btc (u_amount x) = Ok (sats x) /\ 0 <= sats x < 2 ^ 64) ->
-    segwit_msgs sha256 (map ser_txin (tx_ins t)) (map ser_txout (tx_outs t)) (ser_script script) (Some f) unspents = Ok msgs ->
-    sign_msgs p a n G sha256 draws keys msgs (Some f) = Ok sigss ->
-    forall j x, nth_error unspents j = Some x ->
+    (length selected <= length (tx_ins t))%nat ->
+    (forall x, In x selected -> sat_of_btc (u_amount x) = Ok (sats x) /\ 0 <= sats x < 2 ^ 64) ->
+    segwit_msgs sha256 (map ser_txin (tx_ins t)) (map ser_txout (tx_outs t)) (ser_script script)
+                (tx_version t) (tx_locktime t) (Some f) 0 selected = Ok msgs ->
+    sign_msgs p a n G sha256 draws keys msgs (Some f) true = Ok sigss ->
+    forall j x, nth_error selected j = Some x ->
       exists digest sgs,
         sighash sha256 t j (sats x) script f = Some digest /\ nth_error sigss j = Some sgs /\
-        Forall2 (fun key sg => exists d r s der,
-                   privkey_int n key = Ok d /\ der_encode_sig r s = Ok der /\ sg = der ++ [z2b f] /\
-                   verify p a b n G r s (smul p a d G) (of_be digest) = Ok true)
-                keys sgs.
+        Forall2 (valid_sig digest f) keys sgs.
   Proof.
-    intros Hwf Hv Hl Hf Hs Hlen Hall Hm Hsign j x Hj.
-    destruct (segwit_messages_partial sha256 sats t script f unspents msgs Hwf Hv Hl Hf Hs Hlen Hall Hm j x Hj) as (m & Em & Pm).
-    assert (Rf : 0 <= f < 256).
-    { unfold standard_flag, standard_flags in Hf. cbn [In] in Hf. lia. }
-    pose proof (sign_msgs_sound _ _ _ _ _ Rf Hsign) as HS.
-    assert (Hnth : forall (ms : list bytes) (ss : list (list bytes)) k mm,
-               Forall2 (fun m sgs => Forall2 (good_sig m f true) keys sgs) ms ss -> nth_error ms k = Some mm ->
-               exists sgs, nth_error ss k = Some sgs /\ Forall2 (good_sig mm f true) keys sgs).
-    { intros ms ss k mm HF. revert k. induction HF as [|m0 s0 ms' ss' H0 _ IH]; intros k Hk; destruct k; try discriminate.
-      - injection Hk as <-. exists s0. split; [reflexivity|exact H0].
-      - cbn [nth_error] in *. apply IH. exact Hk. }
-    destruct (Hnth msgs sigss j m HS Em) as (sgs & Es & Hg).
-    exists (Bits.Spec.Bip143.hash256 sha256 m), sgs. split; [|split; [exact Es|]].
-    - unfold sighash. rewrite Pm. reflexivity.
-    - eapply Forall2_imp; [|exact Hg]. intros key sg (d & r & s & der & Hd & _ & Hder & Hsg & _ & Hver).
-      exists d, r, s, der. repeat split; auto.
+    intros Hwf Hf Hs Hlen Hall Hm Hsign j x Hj.
+    destruct (segwit_messages sha256 sats t script f selected 0 msgs Hwf Hf Hs) with (i := j) (x := x) as (m & Em & Pm); auto.
+    pose proof (sign_msgs_sound _ _ _ _ _ _ (standard_flag_byte f Hf) Hsign) as HS.
+    destruct (Forall2_nth _ _ _ HS j m Em) as (sgs & Es & Hg).
+    exists (Bits.Spec.Bip143.hash256 sha256 m), sgs. split; [|split; [exact Es|exact Hg]].
+    unfold sighash. cbn [Nat.add] in Pm. rewrite Pm. reflexivity.
+  Qed.
+
+  (* ---- legacy kinds ---- *)
+  Theorem legacy_signatures_valid (t : tx) f keys draws msgs sigss :
+    wf_tx t -> standard_flag f ->
+    Z.of_nat (length (tx_ins t)) < 2 ^ 64 -> Z.of_nat (length (tx_outs t)) < 2 ^ 64 ->
+    legacy_msgs (map ser_txin (tx_ins t)) (map ser_txout (tx_outs t)) (tx_version t) (tx_locktime t) f
+                0 (map ser_txin (tx_ins t)) = Ok msgs ->
+    sign_msgs p a n G sha256 draws keys msgs (Some f) false = Ok sigss ->
+    forall j i, nth_error (tx_ins t) j = Some i ->
+      exists pre sgs,
+        legacy_preimage t j (ti_script i) f = Some pre /\
+        legacy_sighash sha256 t j (ti_script i) f = Some (h256 sha256 pre) /\       (* never the digest-1 case *)
+        nth_error sigss j = Some sgs /\
+        Forall2 (valid_sig (h256 sha256 pre) f) keys sgs.
+  Proof.
+    intros Hwf Hf Hni Hno Hm Hsign j i Hj.
+    destruct (legacy_messages t Hwf Hni Hno f (tx_ins t) 0 msgs) with (j := j) (i := i) as (Q & m & Em & Pm); auto.
+    cbn [Nat.add] in Q, Pm.
+    pose proof (sign_msgs_sound _ _ _ _ _ _ (standard_flag_byte f Hf) Hsign) as HS.
+    destruct (Forall2_nth _ _ _ HS j m Em) as (sgs & Es & Hg).
+    exists (m ++ u32le f), sgs. split; [exact Pm|]. split; [|split; [exact Es|exact Hg]].
+    unfold legacy_sighash. rewrite Hj, Q, Pm. reflexivity.
+  Qed.
+
+  (* ---- send_tx: the signatures it computes (sign_inputs) for the transaction it builds ---- *)
+  Definition segwit_kind (k : keyinfo) : bool := is_kind (ki_type k) [k_p2wpkh; k_p2wsh; k_p2sh_p2wpkh; k_p2sh_p2wsh].
+
+  Theorem sign_inputs_valid (sats : utxo -> Z) sender recipient change k frac fee version locktime total unspents u f script
+          draws sigs :
+    build_unsigned p a n G sha256 ripemd160 scriptpubkey is_address sender recipient change (Some k) frac fee total unspents = Ok u ->
+    (forall x, In x unspents -> length (u_txid x) = 32%nat /\ sat_of_btc (u_amount x) = Ok (sats x) /\ 0 <= sats x < 2 ^ 64) ->
+    0 <= version < 2 ^ 32 -> 0 <= locktime < 2 ^ 32 -> standard_flag f ->
+    Z.of_nat (length (us_selected u)) < 2 ^ 64 ->
+    (* segwit kinds: [script] is the script whose CompactSize-prefixed form is the scriptCode *)
+    (segwit_kind k = true ->
+     scriptcode_of p a n G sha256 ripemd160 k = Ok (ser_script script) /\ Z.of_nat (length script) < 2 ^ 64) ->
+    sign_inputs p a n G sha256 ripemd160 k (Some f) version locktime u draws = Ok sigs ->
+    exists t,
+      wf_tx t /\ tx_version t = version /\ tx_locktime t = locktime /\
+      map snd (us_selected u) = map ser_txin (tx_ins t) /\ us_txouts u = map ser_txout (tx_outs t) /\
+      Forall2 (selected_input p a n G sha256 ripemd160 (Some k)) (us_selected u) (tx_ins t) /\
+      forall j xt i, nth_error (us_selected u) j = Some xt -> nth_error (tx_ins t) j = Some i ->
+        exists digest sgs,
+          nth_error sigs j = Some sgs /\
+          (if segwit_kind k then sighash sha256 t j (sats (fst xt)) script f = Some digest
+           else legacy_sighash sha256 t j (ti_script i) f = Some digest) /\
+          Forall2 (valid_sig digest f) (ki_keys k) sgs.
+  Proof.
+    intros Hb Hun Rv Rl Hf Hlen Hsc Hsign.
+    destruct (unsigned_structured p a n G sha256 ripemd160 scriptpubkey is_address _ _ _ _ _ _ _ _ _ version locktime Hb)
+      as (t & Hwf & Ev & El & Eins & Eouts & Hsel & Lout); auto.
+    { intros x Hx. apply Hun. exact Hx. }
+    exists t. repeat (split; [assumption|]).
+    assert (Lins : length (tx_ins t) = length (us_selected u)).
+    { rewrite <- (map_length ser_txin), <- Eins, map_length. reflexivity. }
+    intros j xt i Hj Hi.
+    unfold sign_inputs in Hsign. fold (segwit_kind k) in Hsign.
+    destruct (segwit_kind k) eqn:Ek.
+    - destruct (Hsc eq_refl) as (Esc & Ls). rewrite Esc in Hsign. cbn [bind] in Hsign.
+      apply bind_ok in Hsign as (msgs & Hm & Hsign).
+      rewrite Eins, Eouts, <- Ev, <- El in Hm.
+      assert (Hx : nth_error (map fst (us_selected u)) j = Some (fst xt)) by (now apply map_nth_error).
+      destruct (segwit_signatures_valid sats t script f (map fst (us_selected u)) (ki_keys k) draws msgs sigs Hwf Hf Ls)
+        with (j := j) (x := fst xt) as (digest & sgs & Ed & Es & Hg); auto.
+      + rewrite map_length. lia.
+      + intros x Hx'. apply in_map_iff in Hx' as (xt' & <- & Hin).
+        pose proof (Bits.Proofs.Send.build_selected _ _ _ _ _ _ _ _ _ _ _ _ _ _ _ _ _ Hb) as Hsub.
+        rewrite Forall_forall in Hsub. destruct (Hsub _ Hin) as (Hin' & _). apply Hun in Hin'. tauto.
+      + exists digest, sgs. auto.
+    - cbn [of_option bind] in Hsign. apply bind_ok in Hsign as (msgs & Hm & Hsign).
+      rewrite Eins, Eouts, <- Ev, <- El in Hm.
+      destruct (legacy_signatures_valid t f (ki_keys k) draws msgs sigs Hwf Hf) with (j := j) (i := i)
+        as (pre & sgs & Ep & Ed & Es & Hg); auto.
+      + rewrite Lins. exact Hlen.
+      + rewrite Lout.
+        pose proof (Bits.Proofs.Send.outputs_shape _ _ _ _ _ _ _ _ _ _ _ _ _ _ _ _ _ Hb) as (rs & chs & _ & _ & _ & Esh).
+        cbv zeta in Esh. rewrite Esh. destruct (_ >=? 1000); cbn; lia.
+      + exists (h256 sha256 pre), sgs. auto.
   Qed.
 End Valid.
